@@ -409,6 +409,7 @@ impl Pipeline {
             let pipeline_stats = self.stats.clone();
 
             let handle = tokio::spawn(async move {
+                let mut stage_result: Result<()> = Ok(());
                 while let Some(item) = stage_input_rx.recv().await {
                     let start_time = Instant::now();
                     stage_stats.active_items.fetch_add(1, Ordering::Relaxed);
@@ -434,8 +435,14 @@ impl Pipeline {
                                 .total_processed
                                 .fetch_add(1, Ordering::Relaxed);
                         }
-                        Ok(Err(_)) | Err(_) => {
-                            // Stage failed or timed out
+                        Ok(Err(e)) => {
+                            // Stage failed: stop this stage and report the error
+                            stage_result = Err(e);
+                            break;
+                        }
+                        Err(_) => {
+                            // Stage timed out: stop this stage and report the error
+                            stage_result = Err(ZiporaError::configuration("stage timeout"));
                             break;
                         }
                     }
@@ -446,17 +453,30 @@ impl Pipeline {
                 }
 
                 drop(output_tx); // Signal end of stream
+                stage_result
             });
 
             handles.push(handle);
         }
 
         // Wait for all stages to complete
+        let mut first_error: Option<ZiporaError> = None;
         for handle in handles {
-            let _ = handle.await;
+            let stage_outcome = match handle.await {
+                Ok(outcome) => outcome,
+                Err(e) => Err(ZiporaError::configuration(format!("pipeline stage task failed: {}", e))),
+            };
+            if let Err(e) = stage_outcome {
+                if first_error.is_none() {
+                    first_error = Some(e);
+                }
+            }
         }
 
-        Ok(())
+        match first_error {
+            Some(e) => Err(e),
+            None => Ok(()),
+        }
     }
 
     /// Process a batch of items through a single stage
